@@ -351,6 +351,19 @@ func (g *gen) next() op {
 				continue
 			}
 			p := hx.Pick(r, all)
+			if r.Chance(30) {
+				// prefer an empty directory now and then: Remove of a directory moves the parent's link count and
+				// the used-directories counter
+				var empty []string
+				for _, q := range all {
+					if m := ref.lookup(q); m != nil && m.kind == kDir && len(m.kids) == 0 {
+						empty = append(empty, q)
+					}
+				}
+				if len(empty) > 0 {
+					p = hx.Pick(r, empty)
+				}
+			}
 			n := ref.lookup(p)
 			if n.kind == kDir && len(n.kids) > 0 {
 				continue
